@@ -16,7 +16,7 @@ import z3
 from .common import *
 from vc.engine import Contract
 from . import c02
-from .c04 import grant_contract
+from .c04 import grant_contract, refresher_base, refresher_busy
 
 PROPERTY = "C05"
 LEVEL = "proof"
@@ -26,6 +26,8 @@ ASSUMPTIONS = [
     "bounds B are per configuration (tiny timings, read_time/write_time = 4); the property only asks that a bound exists "
     "that does not depend on the other ports' traffic: the obligations are proved with the other banks' requests as free inputs",
     "response obligations start from any state satisfying the C02 invariants (proved inductive in the same run)",
+    "the refresher guarantees used as assumptions of the service obligation (granted within G, sequence over within SEQ, "
+    "one request per tREFI) are C04 obligations, discharged again here for the same refresher / controller configuration",
     "port-level bound = crossbar wait (unbounded for a locked-out master: known finding) + acceptance + service; the "
     "single-master-per-bank composition is on paper",
 ]
@@ -199,6 +201,9 @@ def tasks(tier):
         out.append(dict(fn="service_contract", cfg=cfg, modes=["inductive", "response"], weight=30, timeout_ms=2400000))
     # the refresher guarantees used for the composition, for the same controller configuration (C04 obligations)
     out.append(dict(fn="grant_contract", cfg=dict(base, G=G), modes=["inductive", "response"], weight=30, timeout_ms=900000))
+    rcfg = dict(tRP=2, tRFC=base.get("tRFC", 3), tREFI=100, postponing=1, G=G)       # the refresher of the configuration above
+    out.append(dict(fn="refresher_base", cfg=rcfg, modes=["inductive", "response", "window"], weight=5))
+    out.append(dict(fn="refresher_busy", cfg=rcfg, modes=["inductive"], weight=20, timeout_ms=900000))
     for cfg in [dict(nports=2, bankbits=1), dict(nports=3, bankbits=1)]:
         out.append(dict(fn="crossbar_contract", cfg=cfg, modes=["inductive"], weight=2))
     out.append(dict(kind="custom", fn="lockout_task", cfg={}, weight=10))
